@@ -50,6 +50,7 @@ import (
 	dbm "github.com/tendermint/tm-db"
 	"verifharness/internal/appsh"
 	"verifharness/internal/chain"
+	"verifharness/internal/chainx"
 	"verifharness/internal/gen"
 )
 
@@ -161,15 +162,40 @@ func dump(n *chain.Node, ctx sdk.Context) []string {
 	}
 	out = append(out, "accounts "+joinSorted(as))
 	out = append(out, "supply "+ak.GetSupply(ctx).GetTotal().AmountOf(sdk.DefaultStakeDenom).String())
+	// node and application records: read record by record from the raw store prefixes (the exporting
+	// getters GetAllValidators / GetAllApplications are part of what is checked), key cross-checked
 	var vs []string
-	for _, v := range nk.GetAllValidators(ctx) {
-		vs = append(vs, rNode(v))
+	rit, _ := sdk.KVStorePrefixIterator(ctx.KVStore(n.App.Keys[nodesTypes.StoreKey]), nodesTypes.AllValidatorsKey)
+	for ; rit.Valid(); rit.Next() {
+		v, err := nk.UnmarshalValidator(ctx, rit.Value())
+		if err != nil {
+			vs = append(vs, fmt.Sprintf("BAD%x", rit.Key()))
+			continue
+		}
+		r := rNode(v)
+		if fmt.Sprintf("%x", rit.Key()[1:]) != v.Address.String() {
+			r += "!KEY" + fmt.Sprintf("%x", rit.Key())
+		}
+		vs = append(vs, r)
 	}
+	rit.Close()
 	out = append(out, "nodes "+joinSorted(vs))
 	var aps []string
-	for _, a := range apk.GetAllApplications(ctx) {
-		aps = append(aps, rApp(a))
+	rit, _ = sdk.KVStorePrefixIterator(ctx.KVStore(n.App.Keys[appsTypes.StoreKey]), appsTypes.AllApplicationsKey)
+	for ; rit.Valid(); rit.Next() {
+		a, err := appsTypes.UnmarshalApplication(cdc, ctx, rit.Value())
+		if err != nil {
+			aps = append(aps, fmt.Sprintf("BAD%x", rit.Key()))
+			continue
+		}
+		r := rApp(a)
+		if fmt.Sprintf("%x", rit.Key()[1:]) != a.Address.String() {
+			r += "!KEY" + fmt.Sprintf("%x", rit.Key())
+		}
+		aps = append(aps, r)
 	}
+	rit.Close()
+	_ = apk
 	out = append(out, "apps "+joinSorted(aps))
 	out = append(out, paramWords(gk.GetAllParamNameValue(ctx))...)
 	var acl []string
@@ -177,10 +203,27 @@ func dump(n *chain.Node, ctx sdk.Context) []string {
 		acl = append(acl, p.Key)
 	}
 	out = append(out, "acl "+joinSorted(acl))
+	// pending claims: read from the raw store (prefix ClaimKey), one fresh value per record — not through
+	// Keeper.GetAllClaims, which is the function ExportGenesis uses and therefore part of what is checked —
+	// and cross-checked with the store key (ClaimKey ‖ sender address ‖ header hash ‖ evidence type)
 	var cs []string
-	for _, c := range pk.GetAllClaims(ctx) {
-		cs = append(cs, rClaim(c))
+	pcst := ctx.KVStore(n.App.Keys[pcTypes.StoreKey])
+	cit, _ := sdk.KVStorePrefixIterator(pcst, pcTypes.ClaimKey)
+	for ; cit.Valid(); cit.Next() {
+		var c pcTypes.MsgClaim
+		if err := cdc.UnmarshalBinaryBare(cit.Value(), &c, ctx.BlockHeight()); err != nil {
+			cs = append(cs, fmt.Sprintf("BAD%x", cit.Key()))
+			continue
+		}
+		r := rClaim(c)
+		k := cit.Key()
+		if len(k) < len(pcTypes.ClaimKey)+sdk.AddrLen || fmt.Sprintf("%x", k[len(pcTypes.ClaimKey):len(pcTypes.ClaimKey)+sdk.AddrLen]) != c.FromAddress.String() {
+			r += "!KEY" + fmt.Sprintf("%x", k)
+		}
+		cs = append(cs, r)
 	}
+	cit.Close()
+	_ = pk
 	out = append(out, "claims "+joinSorted(cs))
 	out = append(out, "dao "+gk.GetDAOTokens(ctx).String())
 	// decoded index prefixes of the pos store
@@ -363,10 +406,13 @@ func votes(w *chain.World, r *gen.R) []abci.VoteInfo {
 
 func runExport(hseed uint64, blocks int, dir string, flavour int) {
 	chain.ModernGlobals()
+	chainx.InitSessionCache(100)
 	w, o := chain.DefaultWorld("verif", 3, 2, 3, 5)
 	o.Mutate = func(g *chain.Genesis) {
 		g.Apps.Params.UnstakingTime = time.Hour
 		g.Nodes.Params.UnstakingTime = 2 * time.Hour
+		g.Apps.Params.BaseRelaysPerPOKT = 10000000 // allowances large enough for the claimed proofs (over-service check)
+		g.Nodes.Params.SessionBlockFrequency = 4 // sessions of 4 blocks: claims of ended sessions are valid within a history
 	}
 	g := chain.BuildGenesis(o)
 	n := chain.NewNode(g, "verif", o.GenesisTime, dbm.NewMemDB(), dbm.NewMemDB(), dbm.NewMemDB(), false)
@@ -407,10 +453,38 @@ func runExport(hseed uint64, blocks int, dir string, flavour int) {
 				descs = append(descs, d)
 			}
 		}
+		if flavour >= 1 && n.Height+1 > 5 {
+			// real MsgClaim transactions: every node may claim the session that ended last (or the one before)
+			nodes := append(append([]chain.Key{}, w.Vals...), w.Servs...)
+			hh := n.Height + 1
+			lastStart := ((hh-1)/4)*4 + 1 - 4
+			for _, nd := range nodes {
+				if !r.Chance(1, 3) {
+					continue
+				}
+				sh := lastStart
+				if sh > 4 && r.Chance(1, 4) {
+					sh -= 4
+				}
+				ap := w.Apps[r.Intn(len(w.Apps))]
+				blk.Txs = append(blk.Txs, chain.SignTx(w.ChainID, nd, chainx.MsgClaim(nd, ap, sh, int64(5+r.Intn(20)), byte(r.Intn(250))), fee, h.entropy(), ""))
+				descs = append(descs, fmt.Sprintf("claim %s@%d", nd.Addr, sh))
+			}
+		}
 		h.s.Begin(blk)
 		var codes []string
 		for _, t := range blk.Txs {
 			codes = append(codes, appsh.Code(h.s.Deliver(t)))
+		}
+		if flavour >= 1 && b == blocks-1 {
+			for i, k := range append(append([]chain.Key{}, w.Servs...), w.Vals[0]) {
+				ap := w.Apps[i%len(w.Apps)]
+				c := pcTypes.MsgClaim{SessionHeader: pcTypes.SessionHeader{ApplicationPubKey: ap.Pub.RawString(), Chain: chain.ChainHash, SessionBlockHeight: 1},
+					MerkleRoot: pcTypes.HashRange{Hash: r.Bytes(32), Range: pcTypes.Range{Lower: 0, Upper: uint64(2000 + i)}}, TotalProofs: int64(7 + i),
+					FromAddress: k.Addr, EvidenceType: pcTypes.RelayEvidence, ExpirationHeight: n.Height + 1 + 300}
+				err := n.App.VerifPocketKeeper().SetClaim(h.s.DeliverCtx(), c)
+				descs = append(descs, fmt.Sprintf("keeper-claim %s err=%v", k.Addr, err))
+			}
 		}
 		if flavour >= 2 && r.Chance(1, 6) {
 			// a pending claim written through the keeper (claim transactions need served relays;
